@@ -94,9 +94,31 @@ def stepW (w : Wire) (line : String) : Wire × String :=
   | ["drainmeta", a, n] => r (.drainMeta (nat a) (nat n))
   | _ => (w, "bad-op")
 
+/-- `pingids n`: a fresh connection issues n keepalive pings (each answered) and one metadata request after the second -/
+def pingIds (n : Nat) : String :=
+  let rec go (k : Nat) (w : Wire) (ids : List Nat) : List Nat :=
+    match k with
+    | 0 => ids
+    | k + 1 =>
+      let (w1, o) := wreq w 0 .ping {}
+      match o with
+      | .issued id =>
+        let w2 := (wresp w1 id .pong 0 0).1
+        let (w3, ids') :=
+          if n - k = 2 then
+            match wreq w2 1 .metadata {} with
+            | (w3, .issued m) => ((wresp w3 m .metaAck 0 0).1, ids ++ [id, m])
+            | (w3, _) => (w3, ids ++ [id])
+          else (w2, ids ++ [id])
+        go k w3 ids'
+      | _ => ids
+  let ids := go n {} []
+  if ids.Nodup ∧ ids.all (· % 2 = 0) ∧ n ≤ ids.length then "pingids ok" else "pingids bad " ++ toString ids
+
 def step (d : DSt) (line : String) : DSt × String :=
   match words line with
   | ["reset"] => ({}, "ok")
+  | ["pingids", n] => (d, pingIds (nat n))
   | _ =>
     if d.dead then (d, "dead") else
     let (w', o) := stepW d.w line
